@@ -264,19 +264,23 @@ class Job:
         self.cls, self.doc, self.register, self.variants = cls, doc, register, variants
 
 
+def leaves(job):
+    """the parameters with a packed list (`circle = [points, center, radius]`) replaced by its entries"""
+    out = []
+    for p in job.params:
+        out += list(p[2]) if p[1] == 'list' else [p]
+    return out
+
+
 def worlds(job):
-    syms = []
-    for p in job.params:
-        for x in p[1]:
-            if isinstance(x, str) and x not in syms:
-                syms.append(x)
+    syms = job_syms(job)
     opts = {}
-    for p in job.params:
+    for p in leaves(job):
         o = p[3] if len(p) > 3 else ()
         for x in p[1]:
             if isinstance(x, str) and 'sq' in o:
                 opts.setdefault(x, []).append(p[0])
-    leads = [p[0] for p in job.params if len(p) > 3 and 'lead1' in p[3]]
+    leads = [p[0] for p in leaves(job) if len(p) > 3 and 'lead1' in p[3]]
     out = []
     for combo in itertools.product(*[['many', 'one'] for _ in syms]):
         w = dict(zip(syms, combo))
@@ -321,6 +325,9 @@ def run_world(job, world, registry):
     eng = Engine(world, resolve, registry)
     env = {}
     for p in job.params:
+        if p[1] == 'list':
+            env[p[0]] = PList(input_tensor(eng, world, q) for q in p[2])
+            continue
         t = input_tensor(eng, world, p)
         if len(p) > 3 and 'synthetic' in p[3]:
             env['__' + p[0] + '__'] = t
@@ -339,7 +346,7 @@ def run_world(job, world, registry):
     if missing:
         raise TranslateError('%s: parameters %s are not described' % (job.py, missing))
     real = [p[0] for p in job.params if not (len(p) > 3 and 'synthetic' in p[3])]
-    if [a for a in args if isinstance(env[a], T)] != real:
+    if [a for a in args if isinstance(env[a], (T, PList))] != real:
         raise TranslateError('%s: parameter list changed to %s' % (job.py, args))
     it = Interp(eng, env, job.py, job.rel)
     try:
@@ -461,7 +468,8 @@ def result_text(eng, pr, job, spec, val, roots):
     if k == 'hit':
         r = txt(tensor_nodes(eng, job, val, spec[1], 'Ray', 's', what))
         d = txt(tensor_nodes(eng, job, val, spec[2], None, 's', what))
-        return '(⟨%s, %s, %s⟩ : Hit α)' % (pr.vec([r[(0, c)] for c in range(3)]), pr.vec([r[(1, c)] for c in range(3)]), d[()])
+        parts = [pr.vec([r[(0, c)] for c in range(3)]), pr.vec([r[(1, c)] for c in range(3)]), d[()]]
+        return pr.compact(parts, ['point', 'normal', 'distance']) or '(⟨%s, %s, %s⟩ : Hit α)' % tuple(parts)
     if k in ('ray', 'vec', 's', 'b'):
         struct = {'ray': 'Ray', 'vec': 'Vec3', 's': None, 'b': None}[k]
         return pr.struct_text(struct, txt(tensor_nodes(eng, job, val, spec[1], struct, 'b' if k == 'b' else 's', what)))
@@ -545,7 +553,7 @@ def binder(p):
 
 def job_syms(job):
     out = []
-    for p in job.params:
+    for p in leaves(job):
         for x in p[1]:
             if isinstance(x, str) and x not in out:
                 out.append(x)
@@ -575,7 +583,7 @@ def run_job(job, registry):
             head = 'def %s' % job.lean
             if syms:
                 head += ' {%s : Nat}' % ' '.join(SYMS[s].lean for s in syms) + ''.join(' [NeZero %s]' % SYMS[s].lean for s in syms)
-            head += ''.join(' ' + binder(p) for p in job.params)
+            head += ''.join(' ' + binder(p) for p in leaves(job))
             head += ''.join(' (%s : Fin %s)' % (SYMS[s].var, SYMS[s].lean) for s in job.index)
             lines = ['/-- %s -/' % (job.doc or '`%s` (%s)' % (job.py, job.rel)), head + ' : %s :=' % result_type(job.result)]
             lines += [let_text(eng, pr, lid) for lid in eng.order if lid in need]
@@ -640,11 +648,19 @@ def jobs():
             ('pair', ('rows', 0, 'Ray'), ('rows', 1, 'Ray')), cls='planar_mesh',
             doc='`planar_mesh.mirror` with `triangles = self.get_triangles()`: (reflected_rays, reflected_normals)'),
     ]
+    T.append(Job('intersectCircleRaysT', LB, 'intersect_w_circle',
+                 [ray(), ('circle', 'list', [('circle0', [3, 3], 'Tri'), ('circle1', [3], 'Vec3'), ('circle2', [1], None)])], ['M'], ('hit', 0, 1),
+                 doc='`intersect_w_circle` for a batch of rays: the plane hit, the distance masked by the radius, ray by ray'))
     Nn = [
         Job('intersectSurfaceRaysN', NB, 'intersect_w_surface', [ray(), ('points', [3, 3], 'Tri')], ['M'], ('hit', 0, 1), register=True,
             doc='NumPy `intersect_w_surface` for an [m x 2 x 3] batch of rays and one triangle'),
         Job('reflectBatchN', NB, 'reflect', [('input_ray', ['N', 2, 3], 'Ray', ('sq',)), ('normal', ['N', 2, 3], 'Ray', ('sq',))], ['N'],
             ('ray', None), doc='NumPy `reflect` for n rays and n normals'),
+        Job('intersectCircleRaysN', NB, 'intersect_w_circle',
+            [ray(), ('circle', 'list', [('circle0', [3, 3], 'Tri'), ('circle1', [3], 'Vec3'), ('circle2', [], None)])], ['M'], ('hit', 0, 1),
+            doc='NumPy `intersect_w_circle` for an [m x 2 x 3] batch of rays: the distance masked by the radius, ray by ray'),
+        Job('intersectTriangleN', NB, 'intersect_w_triangle', [('ray', [2, 3], 'Ray'), ('triangle', [3, 3], 'Tri')], [], ('option', ('hit', 0, 1)),
+            doc='NumPy `intersect_w_triangle` (ONE ray, one triangle): `none` stands for the returned `0, 0`'),
     ]
     return T, Nn
 
